@@ -44,6 +44,7 @@ type verifEvent struct {
 	W []json.RawMessage   `json:"w,omitempty"` // [id, len, "stamp"]
 	B [][]json.RawMessage `json:"b,omitempty"` // burst: records submitted while the worker is parked
 	C *verifConc          `json:"c,omitempty"` // concurrent burst through the public logx functions
+	X string              `json:"x,omitempty"` // remove this directory entry (with its content) before the next record
 	G bool                `json:"g,omitempty"` // held-compress stream: let the oldest held compress phase run
 	R []string            `json:"r,omitempty"` // restart: [rot0, now0, boundary date]: Close, then a new logger on the same file
 	D *string           `json:"d,omitempty"` // boundary date "2006-01-02" of the released clean-up
@@ -219,6 +220,7 @@ func (g *verifGzGate) Info(v any, _ ...LogField) {
 }
 
 type verifLog struct {
+	X   string    `json:"x,omitempty"`
 	G   bool      `json:"g,omitempty"`
 	R   bool      `json:"r,omitempty"`
 	W   *int      `json:"w,omitempty"`
@@ -387,6 +389,9 @@ func verifReadFile(path string) verifFile {
 		vf.Gz = 78 // symlink to something else, dangling link or other special entry
 		if fi.IsDir() {
 			vf.Gz = 77
+			if ents, err := os.ReadDir(path); err == nil && len(ents) > 0 {
+				vf.Gz = 79 // non-empty directory: nothing can be renamed onto it
+			}
 		}
 		return vf
 	}
@@ -505,6 +510,13 @@ func verifRunCase(c verifCase) any {
 	for _, s := range c.Seeds {
 		if s.Kind == "dir" {
 			if err := os.Mkdir(filepath.Join(dir, s.Name), 0o755); err != nil {
+				return fail(err.Error())
+			}
+			continue
+		}
+		if s.Kind == "fulldir" {
+			// a non-empty directory: os.Rename onto it fails
+			if err := os.MkdirAll(filepath.Join(dir, s.Name, "sub"), 0o755); err != nil {
 				return fail(err.Error())
 			}
 			continue
@@ -744,6 +756,9 @@ func verifRunCase(c verifCase) any {
 		for _, b := range deferred {
 			if b == "\x00g" {
 				runGzip()
+			} else if strings.HasPrefix(b, "\x00x") {
+				os.RemoveAll(filepath.Join(dir, b[2:]))
+				logs = append(logs, verifLog{X: b[2:]})
 			} else {
 				runDelete(b)
 			}
@@ -871,6 +886,10 @@ events:
 		}
 		if e.G {
 			deferred = append(deferred, "\x00g")
+			continue
+		}
+		if e.X != "" {
+			deferred = append(deferred, "\x00x"+e.X)
 			continue
 		}
 		if e.R != nil {
